@@ -30,6 +30,8 @@ func runC17(w *World, r *Report) {
 	hrFlowContextGetterIsPure(w, r, "R1")
 	hrDuplicateEdgeByEquality(w, r, "R1")
 	hrDestroyDoesNotRecreate(w, r, "R1")
+	hrMessageArgsByName(w, r, "R1")
+	hrCfgIdentifiers(w, r, "R1")
 	hrStoredResponseOwnsItsHeaders(w, r, "R2")
 	hrHeadersAliasing(w, r, "R1")
 	hrCycleCheckSkippedOnlyWithoutRoot(w, r, "R1")
